@@ -667,6 +667,82 @@ theorem combine_never_mutates_operands (m : Mach) (s1 s2 : Nat) :
       ∧ (∀ j, j < m.sims.length → (combine m s1 s2).1.sims[j]? = m.sims[j]?) :=
   combine_frame m s1 s2
 
+/-! ## equivalent entry points and derived objects (R8, R13) -/
+
+/-- **`Result.create` = constructor, then `update`** (every type, accumulation on/off; for CHOICE the
+    `total` argument is the number of choices): same object, same exception. -/
+theorem create_is_constructor_then_update (nm : String) (ty : Ty) (v t : Rat) (acc : Bool) :
+    (ty ≠ .choice → createRes nm ty v t acc = foldUpdM (fresh nm ty acc 0) [⟨v, some t⟩])
+      ∧ (∀ k : Nat, t = (k : Rat) → k ≠ 0 →
+          createRes nm .choice v t acc = foldUpdM (fresh nm .choice acc k) [⟨v, none⟩]) := by
+  constructor
+  · intro h
+    cases ty
+    · simp only [createRes, foldUpdM]
+    · simp only [createRes, foldUpdM]
+    · simp only [createRes, foldUpdM]
+    · exact absurd rfl h
+  · intro k hk hk0
+    subst hk
+    have h0 : ((k : Rat) = 0) = False := by
+      simp only [eq_iff_iff, iff_false]; exact_mod_cast hk0
+    simp only [createRes, h0, if_false, choiceNumOf, Rat.den_natCast, ne_eq, not_true_eq_false,
+      Rat.num_natCast, Int.toNat_natCast, foldUpdM]
+    have : ¬ ((k : Int) < 0) := by omega
+    simp only [this, if_false]
+
+/-- **`add_new_result` = `add_result(Result.create(...))`**, and the `'num_skipped_reps'` result
+    `merge_all_results` creates is `add_new_result(name, SUMTYPE, 0)`. -/
+theorem add_new_result_is_create_then_add (m : Mach) (s : Nat) (nm : String) (ty : Ty) (v t : Rat) :
+    addNewResult m s nm ty v t
+        = (match createRes nm ty v t false with
+           | .error e => (m, some e)
+           | .ok r => addResult (allocRes m r).1 s (allocRes m r).2)
+      ∧ addNewSumZero m s nm = addNewResult m s nm .sum 0 0 := by
+  constructor
+  · rfl
+  · simp [addNewSumZero, addNewResult, createRes, update, fresh]
+
+/-- **a deep copy (or pickle round trip) of a Result is an independent object**: it has the same
+    attributes, a new address, and updates of either leave the other unchanged. -/
+theorem copy_is_independent (m m1 : Mach) (a a' : Nat) (h : copyRes m a = (m1, some a')) :
+    m1.res[a']? = m.res[a]? ∧ a' = m.res.length ∧ a' ≠ a
+      ∧ (∀ o, (updR m1 a' o).1.res[a]? = m.res[a]?)
+      ∧ (∀ o, (updR m1 a o).1.res[a']? = m.res[a]?) := by
+  unfold copyRes at h
+  cases hr : m.res[a]? with
+  | none => simp [hr] at h
+  | some r =>
+    simp only [hr, allocRes, Prod.mk.injEq, Option.some.injEq] at h
+    obtain ⟨h1, h2⟩ := h
+    subst h1 h2
+    have halt : a < m.res.length := by
+      rcases Nat.lt_or_ge a m.res.length with h | h
+      · exact h
+      · rw [List.getElem?_eq_none h] at hr; cases hr
+    have hne : m.res.length ≠ a := by omega
+    refine ⟨by simp, rfl, hne, fun o => ?_, fun o => ?_⟩
+    · rw [updR_res_ne _ _ _ (Ne.symm hne)]; simp [List.getElem?_append_left halt, hr]
+    · rw [updR_res_ne _ _ _ hne]; simp
+
+/-- **a deep copy (or pickle round trip) of a result set** is a new object (the last one) that
+    denotes the same results; every object that existed before is unchanged. -/
+theorem copy_of_result_set (m : Mach) (s : Nat) (x : Sim) (hx : m.sims[s]? = some x)
+    (hv : ∀ e ∈ x.dict, ValidEntry m e) (hnd : (x.dict.map (·.1)).Nodup) :
+    view (copySim m s) m.sims.length = view m s := by
+  have hs : s < m.sims.length := by
+    rcases Nat.lt_or_ge s m.sims.length with h | h
+    · exact h
+    · rw [List.getElem?_eq_none h] at hx; cases hx
+  simp only [copySim, hx]
+  set m1 : Mach := { m with sims := m.sims ++ [{ dict := [], params := x.params }] } with hm1
+  have hd1 : dictOf m1 m.sims.length = [] := by simp [dictOf, hm1]
+  rw [copyDict_view m.sims.length x.dict m1 (by simp [hm1]) (by rw [hd1]; intro e he; cases he)
+    (fun e he => hv e he) (by rw [hd1]; intro e _; rfl) hnd]
+  have hxd : dictOf m s = x.dict := by simp [dictOf, hx]
+  simp only [view, hd1, List.map_nil, List.nil_append, hxd]
+  rfl
+
 /-! ## the insertion order of the result names is not part of the value of a result set -/
 
 /-- a result set whose results were added in another order (`reorderDict`, all names listed)
